@@ -24,6 +24,7 @@ import (
 	"sort"
 	"strconv"
 	"strings"
+	"time"
 
 	"github.com/d5/tengo/v2"
 	"github.com/d5/tengo/v2/parser"
@@ -65,6 +66,7 @@ type caseT struct {
 	Calls      []span            `json:"calls"`     // statement containing the call of each active frame, innermost first
 	CallOffs   []int             `json:"call_offs"` // offset of that call inside its file
 	Shape      string            `json:"shape"`
+	Host       *hostPlan         `json:"host,omitempty"` // hosterr.go: the error chain a host-provided function returns
 
 	track []span // trivia.go: offsets to move along with the insertions (not part of the replay format)
 }
@@ -96,7 +98,7 @@ type markState struct {
 var marks markState
 
 func hostObjects() map[string]tengo.Object {
-	return map[string]tengo.Object{
+	m := map[string]tengo.Object{
 		"fail": &tengo.UserFunction{Name: "fail", Value: func(args ...tengo.Object) (tengo.Object, error) {
 			n := 1
 			if len(args) > 0 {
@@ -112,6 +114,7 @@ func hostObjects() map[string]tengo.Object {
 			}
 			return nil, errHost
 		}},
+		// (hosterr.go adds uf, bf, obj, box, tbl)
 		"mark": &tengo.UserFunction{Name: "mark", Value: func(args ...tengo.Object) (tengo.Object, error) {
 			n := 0
 			if len(args) > 0 {
@@ -128,8 +131,11 @@ func hostObjects() map[string]tengo.Object {
 			return tengo.UndefinedValue, nil
 		}},
 	}
+	for k, v := range hostCallables() {
+		m[k] = v
+	}
+	return m
 }
-
 
 // ---------------------------------------------------------------------------
 // running
@@ -175,6 +181,7 @@ func withLimits(c *caseT, f func()) {
 // runDirect runs compiled code on a fresh VM with the probe hook on.
 func runDirect(cp *lib.Compiled, maxAllocs int64) (out runOut) {
 	globals := make([]tengo.Object, tengo.GlobalsSize)
+	setHostGlobals(cp, globals)
 	vm := tengo.NewVM(cp.BC, globals, maxAllocs)
 	marks = markState{}
 	var stack []frameRec
@@ -214,6 +221,7 @@ func runScript(c *caseT, maxAllocs int64) (err error, panicV string, compileErr 
 	s := tengo.NewScript([]byte(c.Main))
 	s.SetImports(moduleMap(c))
 	s.SetMaxAllocs(maxAllocs)
+	addHostVars(s)
 	cp, e := s.Compile()
 	if e != nil {
 		return nil, "", e
@@ -465,6 +473,9 @@ func oracle(c *caseT, err error, path string) (okAll bool) {
 			okAll = false
 		}
 	}
+	if c.Host != nil {
+		okAll = hostOracle(c, err, path) && okAll
+	}
 	return okAll
 }
 
@@ -519,6 +530,9 @@ func sortedKeys(m map[string]string) []string {
 func genBug(c *caseT, why string) {
 	res.Skipped++
 	res.Dist("generator-mismatch")
+	if c.Host != nil {
+		res.Dist("generator-mismatch:host")
+	}
 	if os.Getenv("C14_DEBUG") != "" {
 		fmt.Fprintf(os.Stderr, "GENBUG kind=%s shape=%s: %s\n--- main\n%s\n", c.Kind, c.Shape, why, c.Main)
 		for n, s := range c.Modules {
@@ -536,7 +550,16 @@ func checkCase(c *caseT) {
 
 func checkCaseL(c *caseT) {
 	mm := moduleMap(c)
-	cp, cerr := lib.CompileSource([]byte(c.Main), lib.CompileOpts{Modules: mm})
+	curCase = c
+	defer func() { curCase = nil }()
+	if c.Host != nil {
+		if !armHost(c) {
+			genBug(c, "host plan cannot be built: "+strings.Join(c.Host.Chain, ">"))
+			return
+		}
+		defer disarmHost()
+	}
+	cp, cerr := lib.CompileSource([]byte(c.Main), lib.CompileOpts{Modules: mm, Inputs: hostVarNames(c)})
 	if cerr != nil {
 		genBug(c, "compile error: "+cerr.Error())
 		return
@@ -582,6 +605,11 @@ func checkCaseL(c *caseT) {
 		genBug(c, fmt.Sprintf("program did not fail (direct=%v script=%v)", d.err, serr))
 		return
 	}
+	if c.Host != nil && (hostCur.raised != 2 || hostCur.ops[0] != c.Host.Op || hostCur.ops[1] != c.Host.Op) {
+		// the planned failure is the only one: the host function ran once per run, as the planned operation
+		genBug(c, fmt.Sprintf("host function raised %d times (%v), planned once per run as %s", hostCur.raised, hostCur.ops, c.Host.Op))
+		return
+	}
 	lastErrText = serr.Error()
 	res.Count("fail", c.Kind+"|"+c.Shape+"|"+c.Main, true)
 	res.Dist("kind:" + c.Kind)
@@ -601,6 +629,11 @@ func checkCaseL(c *caseT) {
 		// both are public paths (Compiler+VM vs Script); judge the second one on its own
 		res.Dist("direct-text-differs-from-script")
 		ok = oracle(c, d.err, "Compiler+VM.Run") && ok
+	} else if c.Host != nil {
+		ok = hostOracle(c, d.err, "Compiler+VM.Run") && ok // same text, yet another error value
+	}
+	if c.Host != nil {
+		hostRunContext(c)
 	}
 	res.Sample(map[string]interface{}{"stream": "fail", "kind": c.Kind, "shape": c.Shape, "main": c.Main, "modules": c.Modules, "error": clip(serr.Error(), 300)}, 4)
 	if strings.Contains(d.err.Error(), c.Expect) {
@@ -888,6 +921,14 @@ func main() {
 	triviaSystematic(trng.Fork())
 	triviaWholeFile(trng.Fork(), f.Scale(24, 600))
 	triviaRandom(trng.Fork(), f.Scale(240, 12000), boundary)
+	// host-provided functions failing with the host's own error chains (hosterr.go); forked after everything else
+	hrng := rng.Fork()
+	hostStart := time.Now()
+	hostSystematic(hrng.Fork())
+	hostRandom(hrng.Fork(), f.Scale(300, 12000))
+	if os.Getenv("C14_DEBUG") != "" {
+		fmt.Fprintf(os.Stderr, "host streams: %.1fs\n", time.Since(hostStart).Seconds())
+	}
 	res.Extra = map[string]interface{}{"binop_kinds": len(binopKinds), "expr_kinds": len(exprKinds()), "stmt_kinds": len(stmtKinds())}
 	res.Write(f.Out)
 }
